@@ -79,6 +79,7 @@ func (l lost) key() string {
 
 // cmp compares the trees of x (input) and y (re-encoded output).
 type cmp struct {
+	n3Types     []string // box types whose trailing bytes were dropped (N3)
 	x, y        []byte
 	dc          *dontCare
 	explained   map[string]int64 // mask id / normalisation id -> positions (bytes) / occurrences
@@ -201,6 +202,7 @@ func (s *cmp) node(a, b *boxwalk.Node) {
 			return
 		}
 		s.explained["N3"]++
+		s.n3Types = append(s.n3Types, a.Type)
 		s.explained["N3.bytes_dropped"] += int64(len(pa) - len(pb))
 		s.sizeChanged = true
 		s.bytes(a, pa[:len(pb)], pb, pa)
